@@ -77,6 +77,8 @@ async def apply(target, c):
         if op == "get":
             if len(c) > 2:      # the caller passes a default of its own: asked twice with two different defaults, a miss answers each with its default
                 d1, d2 = dec(c[2]), dec(c[3])
+                if ord(c[1][0]) % 2:      # for half of the keys the defaults 0 / 1 are the bools equal to them: a stored 0 is not the default False
+                    d1, d2 = [(bool(d) if type(d) is int and d in (0, 1) else d) for d in (d1, d2)]
                 r1 = await target.get(c[1], default=d1)
                 r2 = await target.get(c[1], default=d2)
                 if type(r1) is type(d1) and r1 == d1 and type(r2) is type(d2) and r2 == d2: return enc(DEFAULT)
